@@ -388,6 +388,14 @@ func excerpt(s string) string {
 		}
 	}
 	s = s[i:]
+	// a panic trace: the message and the panicking goroutine are enough
+	if strings.HasPrefix(s, "panic: ") || strings.HasPrefix(s, "fatal error: ") {
+		if j := strings.Index(s, "\ngoroutine "); j >= 0 {
+			if k := strings.Index(s[j+1:], "\n\ngoroutine "); k >= 0 {
+				s = s[:j+1+k] + "\n[... other goroutines omitted]"
+			}
+		}
+	}
 	if len(s) > 6000 {
 		s = s[:6000] + "\n[...]"
 	}
